@@ -26,9 +26,15 @@ WBU = [WSM + "WebsocketBuffer." + m for m in ("__init__", "extend", "clear", "to
 HKU = [WSM + "Handshake." + m for m in ("__init__", "is_valid", "accept")]
 LIB_WS = ["assumed contract M_ws for wsproto 1.3 Connection/events (pyvc/models_ws.py): event alphabet, one type per message, send may raise LocalProtocolError; io.BytesIO/StringIO abstracted to a typed payload buffer; split_comma_header / generate_accept_token / server_extensions_handshake uninterpreted"]
 
+H1P = "hypercorn.protocol.h11:H11Protocol."
+H1W = "hypercorn.protocol.h11:H11WSConnection."
+PWR = "hypercorn.protocol:ProtocolWrapper."
+H11_UNITS = [H1P + m for m in ("__init__", "handle", "_handle_events", "_check_protocol", "_create_stream", "_maybe_recycle", "stream_send")]
+LIB_H11 = ["assumed contract M_h11 for h11.Connection 0.16 (pyvc/models_h11.py): which events next_event may return in which client state (a Request only when the client is IDLE, PAUSED until start_next_cycle), which sends are legal in which state, ERROR absorbing; parsing and segmentation independence are h11's"]
+
 PLAN = {
     "C01": {
-        "units": [HS + "__init__", HS + "handle", UT + "filter_pseudo_headers", HP + "_create_stream", HP + "_handle_events"],
+        "units": [HS + "__init__", HS + "handle", UT + "filter_pseudo_headers", HP + "_create_stream", HP + "_handle_events", H1P + "_create_stream", H1P + "_handle_events", H1P + "handle"],
         "trusted_base": LIB_H2 + LIB_RT,
         "assumptions": COMMON_ASSUME + STREAM_ASSUME + ["h11/h2 events equal the client's message for every segmentation (library contract)", "unquote is an uninterpreted function"],
         "explanation": "request delivery fidelity: field-by-field scope postcondition, one application per request, body chunks forwarded one to one, pseudo-header filtering",
@@ -36,7 +42,7 @@ PLAN = {
         "level_note": "Trusted: pyvc encoder; parsing and segmentation independence are h11/h2's (assumed contracts); queue FIFO.",
     },
     "C02": {
-        "units": [UT + "suppress_body", UT + "build_and_validate_headers", HS + "app_send", HP + "stream_send", HP + "_send_data", HP + "_flush"] + [SB + m for m in ("push", "pop", "set_complete", "complete")],
+        "units": [UT + "suppress_body", UT + "build_and_validate_headers", HS + "app_send", HP + "stream_send", HP + "_send_data", HP + "_flush", H1P + "stream_send"] + [SB + m for m in ("push", "pop", "set_complete", "complete")],
         "trusted_base": LIB_H2 + LIB_RT,
         "assumptions": COMMON_ASSUME + STREAM_ASSUME + ["serialisation and framing legality are h11/h2's"],
         "explanation": "response automaton as preconditions of the stream's send callback (one final head, body after head, one end), suppression rule, buffer FIFO",
@@ -44,7 +50,7 @@ PLAN = {
         "level_note": "Trusted: pyvc encoder, library models; client-side parsing not modelled.",
     },
     "C03": {
-        "units": [HS + "handle", HS + "app_send", WSU + "handle", WSU + "app_send", HP + "handle", HP + "_close_stream", HP + "stream_send"],
+        "units": [HS + "handle", HS + "app_send", WSU + "handle", WSU + "app_send", HP + "handle", HP + "_close_stream", HP + "stream_send", H1P + "handle", H1P + "_maybe_recycle"],
         "trusted_base": LIB_H2 + LIB_RT,
         "assumptions": COMMON_ASSUME + STREAM_ASSUME,
         "explanation": "exactly-once disconnect and access record as class invariants stable under the yield rule; nothing is put after the disconnect (callback precondition)",
@@ -52,7 +58,7 @@ PLAN = {
         "level_note": "Trusted: pyvc encoder; rely/guarantee meta-theory; handle() assumed not re-entered (the re-entrant case is finding F4i).",
     },
     "C05": {
-        "units": [HS + "app_send", WSU + "app_send", HP + "stream_send", HP + "_close_stream"],
+        "units": [HS + "app_send", WSU + "app_send", HP + "stream_send", HP + "_close_stream", H1P + "_maybe_recycle", H1P + "stream_send"],
         "trusted_base": LIB_H2 + LIB_RT,
         "assumptions": COMMON_ASSUME + STREAM_ASSUME,
         "explanation": "application failure: app_send(None) emits 500+end when nothing was started and StreamClosed without EndBody otherwise",
@@ -84,7 +90,7 @@ PLAN = {
         "level_note": "Trusted: pyvc encoder; Any-typed application values follow CPython's conversion table as encoded in pyvc/calls.py.",
     },
     "C04": {
-        "units": H2_UNITS + [HS + "handle", WSU + "handle"] + WBU[1:2],
+        "units": H2_UNITS + [HS + "handle", WSU + "handle"] + WBU[1:2] + H11_UNITS + [PWR + "handle"],
         "trusted_base": LIB_H2,
         "assumptions": COMMON_ASSUME + ["byte-level parsing of HTTP/2 frames is h2's; inputs range over everything the assumed h2 contract may return"],
         "explanation": "no client input causes an internal error: generated run-time-exception obligations (no undeclared exception escapes) and class invariants I1/I2 over every event h2 may deliver",
@@ -98,6 +104,22 @@ PLAN = {
         "explanation": "flow control respected (precondition of send_data), per-stream FIFO, invariants I1/I2 that keep the send task alive",
         "level_text": "len(data) <= windows and frame size is a discharged obligation at the single send_data call site; FIFO and end-once are postconditions of StreamBuffer and _send_data; liveness is reduced to invariants I1/I2 (the send task cannot die) under fairness.",
         "level_note": "Trusted: pyvc encoder; h2 window accounting as modelled; priority scheduling order not modelled; liveness only via safety surrogates.",
+    },
+    "C06": {
+        "units": H11_UNITS,
+        "trusted_base": LIB_H11 + LIB_RT,
+        "assumptions": COMMON_ASSUME + STREAM_ASSUME + ["h11 adds connection: close itself for HTTP/1.0 / Connection: close requests (library behaviour)"],
+        "explanation": "HTTP/1.x keep-alive and pipelining: invariant 'client IDLE => no stream attached' stable across every await (so the next application starts only after the previous stream was detached), recycle only when both sides are DONE and shutdown has not begun, request counted exactly once",
+        "level_text": "C06.serial is a class invariant of H11Protocol proved at every await of every method under the assumed h11 state machine; recycle/close and the request counter are postconditions proved for all states.",
+        "level_note": "Trusted: pyvc encoder; M_h11; that bytes of request n+1 are not emitted before start_next_cycle is h11's behaviour.",
+    },
+    "C13": {
+        "units": [PWR + "__init__", PWR + "handle", H1P + "_check_protocol", H1P + "handle", H1P + "_handle_events", HP + "initiate", H1W + "receive_data", H1W + "next_event"],
+        "trusted_base": LIB_H11 + LIB_H2 + LIB_RT,
+        "assumptions": COMMON_ASSUME + ["segmentation independence of h11 (library)", "trailing_data is exactly what h11 has not consumed (library)"],
+        "explanation": "protocol selection: ALPN h2 <=> H2Protocol; the HTTP/2 preface is never missed by _check_protocol; after a switch the wrapper holds an H2Protocol; WebSocket pass-through loses or duplicates no byte (ghost fed/delivered invariant)",
+        "level_text": "Selection and hand-over are postconditions of ProtocolWrapper.__init__/handle and _check_protocol for all requests; the pass-through buffer satisfies cat(delivered, buffer) == fed as a class invariant.",
+        "level_note": "Trusted: pyvc encoder, M_h11/M_h2. The h2c path itself is broken on the pinned tree (findings F13, F13b, F13c), demonstrated natively.",
     },
     "C08": {
         "units": [SB + m for m in ("__init__", "push", "pop", "drain", "set_complete", "close", "complete")] + [HP + m for m in ("_window_updated", "_send_data", "stream_send", "handle", "send_task")],
